@@ -85,6 +85,18 @@ def make_weather(spec):
     n = (end - start).days + 1
     # positions are relative to the simulation start (index 0 = first simulated day)
     letters = word_letters(w, n)
+    if w.get("annual"):
+        # the same record on the same (month, day) of every year: all seasons of a run see identical weather
+        word = WORDS.get(w.get("word"), w.get("word"))
+        letters = []
+        for i in range(n):
+            d = start + _dt.timedelta(days=i)
+            letters.append(word[(d.month * 31 + d.day) % len(word)])
+    for a, b, bw in w.get("blocks", []) or []:
+        # positions a..b-1 follow another word (e.g. one cool year between warm ones)
+        tail = WORDS.get(bw, bw)
+        for i in range(max(0, a), min(n, b)):
+            letters[i] = tail[(i - a) % len(tail)]
     frm = w.get("from")
     if frm:
         p0, sym = frm
